@@ -176,6 +176,7 @@ class Check:
         with open(os.path.join(EVIDENCE, self.pid + ".json"), "w") as f:
             json.dump(ev, f, indent=1, default=str)
         shutil.rmtree(self.work, ignore_errors=True)
+        shutil.rmtree("/dev/shm/verif_tlc_%d" % os.getpid(), ignore_errors=True)
         print("%s %s: states=%d transitions=%d traces=%d evaluations=%d distinct=%d violations=%d known=%d wall=%.1fs" % (
             self.pid, self.tier, self.cov["states"], self.cov["transitions"], self.cov["traces_validated_against_impl"],
             self.cov["evaluations"], self.cov["distinct_nontrivial"], len(self.violations),
@@ -189,7 +190,7 @@ def validate_traces(chk, module, cfg, traces, label, workers=1, timeout=1800, pa
     if not traces:
         return {}
     import threading
-    n = parallel or (6 if len(traces) >= 1500 else 1)
+    n = parallel or (4 if len(traces) >= 6000 else 1)
     size = (len(traces) + n - 1) // n
     parts = [(off, traces[off:off + size]) for off in range(0, len(traces), size)]
     results = {}
